@@ -1,5 +1,10 @@
 // generator_replay.cpp -- replays behaviours of spec/Generator/Generator.tla on the real
-// cocls::generator<int> / cocls::generator<int,int>.
+// cocls::generator<V> / cocls::generator<V,A> where V and A are TRACKED payload types (Tracked<0>, Tracked<1>: content id,
+// moved-from flag set on the source by move construction/assignment, global copy/move/live counters; non-trivial like
+// std::string but not allocating).  The body yields in several forms: a dying local variable / a temporary ("yield"),
+// a temporary computed from its own variable ("yt"), its own variable which it keeps extending afterwards ("yv"), and
+// std::move(variable) ("ym"); the projection carries the variable's content and moved-from flag, the public view
+// gen.value() of the current item, and the numbers of copy / move constructions of V and of A made so far.
 //
 // A scenario is one maximal path of the specification's state graph: a (body script, consumer
 // script) pair with its execution.  Internal specification actions (BodyResume, BodyStep, ...,
@@ -28,11 +33,12 @@
 //              another thread.  late: the blocked consumer continues after
 //              the completing thread has returned; early: the consumer is released as soon as
 //              _block was stored (before notify_all / before the completing thread has unwound)
-// header "witharg" selects generator<int,int>.
+// header "witharg" selects generator<V,A>.
 //
 // projection (keys sorted):
 //  {"alive","bscript":[...],"bst","cscript":[...],"got":[{"a","v"}],"it","loc":{"ctor","dtor"},
-//   "obs":[{"p","r","v"}],"par","pr":{"arg","awaiting","block","caller","done","exp","ifn","ret"}|{}}
+//   "obs":[{"p","r","v"}],"par","pr":{"arg","awaiting","block","caller","done","exp","ifn","ret"}|{},
+//   "aops","cp","mv","val","var":{"id","m"}}
 #include <cocls/generator.h>
 #include <cocls/async.h>
 #include <cocls/future.h>
@@ -86,17 +92,38 @@ void operator delete[](void *p, std::size_t) noexcept { operator delete(p); }
 template <typename Tag> struct Stolen { static inline typename Tag::type value{}; };
 template <typename Tag, typename Tag::type V> struct Steal { static inline const bool done = (Stolen<Tag>::value = V, true); };
 
-using G0 = cocls::generator<int>;
-using G1 = cocls::generator<int, int>;
+// ---------------------------------------------------------------------------------------------
+// tracked payload
+// ---------------------------------------------------------------------------------------------
+template <int Tag> struct Tracked {
+    int id = 0;
+    bool moved = false;
+    static inline std::atomic<int> copies{0}, moves{0}, live{0};
+    Tracked() { ++live; }
+    explicit Tracked(int i) : id(i) { ++live; }
+    Tracked(const Tracked &o) : id(o.id), moved(o.moved) { ++live; ++copies; }
+    Tracked(Tracked &&o) noexcept : id(o.id), moved(o.moved) { ++live; ++moves; o.id = 0; o.moved = true; }
+    Tracked &operator=(const Tracked &o) { id = o.id; moved = o.moved; ++copies; return *this; }
+    Tracked &operator=(Tracked &&o) noexcept { id = o.id; moved = o.moved; ++moves; o.id = 0; o.moved = true; return *this; }
+    ~Tracked() { --live; }
+    void set(int i) { id = i; moved = false; }        // the owner writes new content
+    operator int() const { return id; }               // reading the content never copies the object
+    static void reset_counters() { copies = 0; moves = 0; }
+};
+using V = Tracked<0>;     // what the generator yields
+using A = Tracked<1>;     // what the consumer passes in
+
+using G0 = cocls::generator<V>;
+using G1 = cocls::generator<V, A>;
 
 template <typename G> struct T_caller { using type = cocls::awaiter *G::promise_type::*; };
 template <typename G> struct T_internal { using type = cocls::malleable_awaiter G::promise_type::*; };
 template <typename G> struct T_arg { using type = typename G::storage_Arg_ptr G::promise_type::*; };
-template <typename G> struct T_ret { using type = int *G::promise_type::*; };
+template <typename G> struct T_ret { using type = V *G::promise_type::*; };
 template <typename G> struct T_exp { using type = std::exception_ptr G::promise_type::*; };
 template <typename G> struct T_done { using type = bool G::promise_type::*; };
 template <typename G> struct T_block { using type = cocls_verif::atomic<bool> G::promise_type::*; };
-template <typename G> struct T_awaiting { using type = cocls::promise<int> G::promise_type::*; };
+template <typename G> struct T_awaiting { using type = cocls::promise<V> G::promise_type::*; };
 template <typename G> struct T_fn_sync { using type = cocls::awaiter::resume_fn; };
 template <typename G> struct T_fn_future { using type = cocls::awaiter::resume_fn; };
 
@@ -156,35 +183,40 @@ template <typename G>
 G body_fn(World<G> *w, Param) {
     constexpr bool WithArg = !G::arg_is_void;
     Counted guard(&w->loc_ctor, &w->loc_dtor);
+    V var(0);                                   // the body's own variable: yielded ("yv", "ym"), re-read and extended
+    struct VarReg { World<G> *w; ~VarReg() { w->bvar = nullptr; } } reg{w};
+    w->bvar = &var;
     w->bst = "run";
+// co_yield EXPR; with argument: what co_yield returns is the consumer's argument object (read, never copied)
+#define DO_YIELD(EXPR)                                                                                   \
+    do {                                                                                                 \
+        w->bst = "yield";                                                                                \
+        if constexpr (WithArg) { int a = co_yield EXPR; w->bst = "run"; Pause hp; w->got.push_back({w->cur, a}); } \
+        else { co_yield EXPR; w->bst = "run"; }                                                          \
+    } while (0)
     for (;;) {
         std::size_t pos = w->bdone.size();
         if (pos >= w->bscript.size()) { w->body_error = "body script exhausted"; co_return; }
         const std::string kind = w->bscript[pos];
         { Pause hp; w->bdone.push_back(kind); }
         if (kind == "yield") {
-            int v = ++w->nyield;
-            w->bst = "yield";
-            if constexpr (WithArg) {
-                if (v & 1) {
-                    int a = co_yield v;              // yield_value(Ret &)
-                    w->bst = "run";
-                    Pause hp;
-                    w->got.push_back({w->cur, a});
-                } else {
-                    int a = co_yield int(v);         // yield_value(Ret &&)
-                    w->bst = "run";
-                    Pause hp;
-                    w->got.push_back({w->cur, a});
-                }
-            } else {
-                if (v & 1) co_yield v;
-                else co_yield int(v);
-                w->bst = "run";
-            }
+            int n = ++w->nyield;
+            if (n & 1) { V tv(n); DO_YIELD(tv); }            // yield_value(Ret &) on a local that dies afterwards
+            else DO_YIELD(V(n));                             // yield_value(Ret &&) on a temporary
+        } else if (kind == "yt") {
+            int n = ++w->nyield;
+            DO_YIELD(V(var.id * 10 + n));                    // temporary computed from the variable
+        } else if (kind == "yv") {
+            int n = ++w->nyield;
+            var.set(var.id * 10 + n);
+            DO_YIELD(var);                                   // the variable itself; used again afterwards
+        } else if (kind == "ym") {
+            int n = ++w->nyield;
+            var.set(var.id * 10 + n);
+            DO_YIELD(std::move(var));                        // yield_value(Ret &&) bound to the variable
         } else if (kind == "ynull") {
             if constexpr (WithArg) {
-                int a = co_yield nullptr;
+                int a = co_yield nullptr;           // A & -> content
                 Pause hp;
                 w->got.push_back({w->cur, a});
             } else {
@@ -217,6 +249,7 @@ G body_fn(World<G> *w, Param) {
             co_return;
         }
     }
+#undef DO_YIELD
 }
 
 template <typename G> struct Gate {
@@ -229,7 +262,7 @@ template <typename G> struct Gate {
 // callback consumers (mode cb)
 template <typename G> struct CbOwner {
     World<G> *w;
-    cocls::suspend_point<void> on_item(cocls::future<int> &f) noexcept { w->cb_future_done(f); return {}; }
+    cocls::suspend_point<void> on_item(cocls::future<V> &f) noexcept { w->cb_future_done(f); return {}; }
 };
 template <typename G> struct FutAwt : cocls::call_fn_future_awaiter<&CbOwner<G>::on_item> {
     using base = cocls::call_fn_future_awaiter<&CbOwner<G>::on_item>;
@@ -268,9 +301,10 @@ struct World {
     // consumer side
     std::vector<std::string> cdone;
     std::vector<Obs> obs;
-    std::vector<int> args;
+    std::vector<A> args;
+    V *bvar = nullptr;                               // the body's variable while it exists
     int cur = 0;                                     // number of the access made last (1-based)
-    std::map<int, std::unique_ptr<cocls::future<int>>> futs;   // native: futures returned by gen()
+    std::map<int, std::unique_ptr<cocls::future<V>>> futs;   // native: futures returned by gen()
     std::map<int, const void *> fut_addr;            // access -> address of its future
     std::optional<G> gen;
     void *frame = nullptr;
@@ -299,11 +333,11 @@ struct World {
     int cb_access = 0;
     bool cb_bad = false;
 
-    World() { obs.reserve(64); args.resize(64); for (int i = 0; i < 64; i++) args[i] = 100 + i; }
+    World() { obs.reserve(64); args.resize(64); for (int i = 0; i < 64; i++) args[i].set(100 + i); }
 
     // the body executed so far is synchronous (co_yield / co_yield nullptr / throw / return only)
     bool sync_so_far() const {
-        for (auto &k : bdone) if (k != "yield" && k != "ynull" && k != "throw" && k != "return") return false;
+        for (auto &k : bdone) if (k != "yield" && k != "yt" && k != "yv" && k != "ym" && k != "ynull" && k != "throw" && k != "return") return false;
         return true;
     }
 
@@ -313,7 +347,7 @@ struct World {
     // ---- observations of the consumer -----------------------------------------------------
     void observe_next(Obs &o, bool b) {
         if (b) {
-            try { int v = gen->value(); o.v = v; o.r = "val"; }
+            try { o.v = gen->value(); o.r = "val"; }
             catch (const TestExc &) { o.r = "exc"; o.v = 0; }
             catch (const cocls::value_not_ready_exception &) { o.r = "notready"; o.v = 0; }
         } else {
@@ -324,7 +358,7 @@ struct World {
             o.r = "end";
         }
     }
-    void observe_future(Obs &o, cocls::future<int> &f, int i) {
+    void observe_future(Obs &o, cocls::future<V> &f, int i) {
         if (!f.ready()) return;
         bool hv = f.has_value();
         if (bool(f) != hv || (!f) == hv) { o.r = "has_value_inconsistent"; return; }
@@ -343,7 +377,7 @@ struct World {
         if constexpr (WithArg) return gen->next(args[i]);
         else return gen->next();
     }
-    cocls::future<int> call_(int i) {
+    cocls::future<V> call_(int i) {
         if constexpr (WithArg) return (*gen)(args[i]);
         else return (*gen)();
     }
@@ -375,7 +409,7 @@ struct World {
             try {
                 if (kind == K_BEGIN) iter.emplace(gen->begin());
                 else if (kind == K_INC) ++*iter;
-                else { auto z = (*iter)++; o.p = z._v; }   // *z does not compile (iterator.h:52: int& from a const member)
+                else { auto z = (*iter)++; o.p = z._v; }   // *z does not compile (iterator.h:52: T& from a const member)
                 bool b = *iter != gen->end();
                 if ((*iter == gen->end()) == b) { o.r = "iter_cmp_inconsistent"; return; }
                 it = b ? "true" : "false";
@@ -394,15 +428,15 @@ struct World {
         Obs &o = obs[i - 1];
         // the future object is the consumer's: its storage is obtained outside the measured access
         auto &slot = futs[i];
-        void *mem = ::operator new(sizeof(cocls::future<int>));
+        void *mem = ::operator new(sizeof(cocls::future<V>));
         fut_addr[i] = mem;
         try {
             {
                 Win win;
-                try { new (mem) cocls::future<int>(call_(i)); }
+                try { new (mem) cocls::future<V>(call_(i)); }
                 catch (...) { ::operator delete(mem); fut_addr.erase(i); throw; }
             }
-            slot.reset(static_cast<cocls::future<int> *>(mem));
+            slot.reset(static_cast<cocls::future<V> *>(mem));
             // own thread: every other future is waited for like `*gen()` does (blocks in the future's
             // sync_awaiter until the body, continued by the completing thread, has yielded or ended)
             if (ct >= 0 && (i & 1)) futs[i]->sync();
@@ -450,7 +484,7 @@ struct World {
         if (st.name == "NextFuture") cb_issue(K_FUTURE);
         else if (st.name == "NextAsync") cb_issue(K_COAWAIT);
     }
-    void cb_future_done(cocls::future<int> &f) {
+    void cb_future_done(cocls::future<V> &f) {
         Obs &o = obs[cb_access - 1];
         if (!f.has_value()) { o.r = "end"; o.v = 0; }
         else {
@@ -593,6 +627,20 @@ struct World {
         for (auto &o : obs) { J e = J::map(); e.set("p", o.p); e.set("r", o.r); e.set("v", o.v); ol.push(e); }
         m.set("obs", ol);
         m.set("par", par_live);
+        // payload: copy / move constructions made since the scenario started (V: yielded objects, A: arguments), the
+        // body's own variable, and the public view of the current item
+        m.set("cp", V::copies.load());
+        m.set("mv", V::moves.load());
+        m.set("aops", A::copies.load() + A::moves.load());
+        J var = J::map();
+        var.set("id", bvar ? bvar->id : 0);
+        var.set("m", bvar ? bvar->moved : false);
+        m.set("var", var);
+        int val = 0;
+        if (gen && bs == "yield") {
+            try { val = gen->value().id; } catch (...) { val = -2; }
+        }
+        m.set("val", val);
         if (sync_so_far()) m.set("allocs", g_lib_allocs.load() - alloc_base);
         J pr = J::map();
 #ifndef GEN_NO_PRIVATE
@@ -604,11 +652,11 @@ struct World {
             auto fn = AwProbe::fn_of(internal);
             pr.set("ifn", fn == Stolen<T_fn_sync<G>>::value ? "sync" : fn == Stolen<T_fn_future<G>>::value ? "future" : "none");
             if constexpr (WithArg) {
-                int *a = p.*Stolen<T_arg<G>>::value;
-                pr.set("arg", a ? *a : 0);
+                A *a = p.*Stolen<T_arg<G>>::value;
+                pr.set("arg", a ? a->id : 0);
             } else pr.set("arg", 0);
-            int *r = p.*Stolen<T_ret<G>>::value;
-            pr.set("ret", r == nullptr ? 0 : bs == "yield" ? *r : -1);
+            V *r = p.*Stolen<T_ret<G>>::value;
+            pr.set("ret", r == nullptr ? 0 : bs == "yield" ? r->id : -1);
             pr.set("exp", bool(p.*Stolen<T_exp<G>>::value));
             pr.set("done", p.*Stolen<T_done<G>>::value);
             pr.set("block", (p.*Stolen<T_block<G>>::value).verif_peek());
@@ -648,6 +696,7 @@ struct World {
 
     void run(const Scenario &sc, Reporter &rep, const std::string &mode_) {
         mode = mode_;
+        V::reset_counters(); A::reset_counters();
         t_window = 0; t_pause = 0;
         bdone.reserve(16); got.reserve(16); cdone.reserve(16);
         alloc_base = g_lib_allocs.load();
@@ -807,7 +856,7 @@ cocls::async<void> consumer(World<G> &w) {
                 try {
                     if (i & 1) {
                         // keep the future, ask it
-                        cocls::future<int> f = w.call_(i);
+                        cocls::future<V> f = w.call_(i);
                         w.fut_addr[i] = &f;
                         bool hv = co_await f.has_value();
                         Obs &o = w.obs[i - 1];
@@ -819,7 +868,7 @@ cocls::async<void> consumer(World<G> &w) {
                     } else {
                         // co_await the future directly
                         Obs &o = w.obs[i - 1];
-                        cocls::future<int> f = w.call_(i);
+                        cocls::future<V> f = w.call_(i);
                         w.fut_addr[i] = &f;
                         try { o.v = co_await f; o.r = "val"; }
                         catch (const TestExc &) { o.r = "exc"; }
@@ -835,7 +884,7 @@ cocls::async<void> consumer(World<G> &w) {
                     WinFlag win;
                     try {
                         win.on();
-                        for (int &v : *w.gen) {
+                        for (V &v : *w.gen) {
                             entered = true;
                             w.obs[i - 1].v = v;
                             w.obs[i - 1].r = "val";
@@ -876,9 +925,16 @@ static void run_modes(const Scenario &sc, Reporter &rep) {
     if (ms.empty()) ms.push_back("native");
     for (auto &m : ms) {
         if (rep.failed()) break;
-        auto w = std::make_unique<World<G>>();
-        w->run(sc, rep, m);
-        if (w->leaked) (void) w.release();
+        int vlive = V::live.load(), alive_args = A::live.load();
+        {
+            auto w = std::make_unique<World<G>>();
+            w->run(sc, rep, m);
+            if (w->leaked) { (void) w.release(); continue; }
+        }
+        // every payload object made during the scenario (yielded objects, the futures' copies, it++ storages) is gone
+        if (!rep.failed() && (V::live.load() != vlive || A::live.load() != alive_args))
+            rep.diverge(sc.steps.size() - 1, "payload objects not destroyed: " + std::to_string(V::live.load() - vlive) +
+                        " value(s), " + std::to_string(A::live.load() - alive_args) + " argument(s) left in mode " + m);
     }
 }
 
